@@ -17,7 +17,9 @@ LEAN_MODULES = ["YowsupVerif.Props.C09"]
 RULE = ("for each entity class with a documented-shape stanza: 1-3 fields varied at once — attribute values generated in their kind (ids, timestamps and "
         "counts as numbers incl. 0 and large, JIDs, flags, free text incl. empty and Latin-1, binary blobs), optional attributes removed, list children "
         "duplicated / removed (0..n); stanza -> entity -> stanza compared field by field (numbers by value); the produced stanza is encoded and decoded by "
-        "the real codec and by the Lean codec model.  distinct = distinct (class, set of varied fields, kinds of values).")
+        "the real codec and by the Lean codec model.  stream 'incoming-message': a <message> stanza of each of the 12 content kinds with a generated payload "
+        "(C10's generator) and envelope (user / group+participant, notify, offline) through the REAL messages / media protocol layer; the entity handed to the "
+        "application is serialised again and compared attribute by attribute and payload field by field (presence-aware).  distinct = distinct (class, set of varied fields, kinds of values).")
 ASSUMPTIONS = ["the documented shape of a class is its fixture stanza (repository test module or docstring) with attribute values varied within their kind; "
                "attributes that select the class (type, xmlns, class, mediatype, child tags) are not varied"]
 
@@ -167,6 +169,8 @@ def cases(chk):
                 else:
                     muts.append(["rep", f[1], f[2], r.choice([0, 1, 2, 3, 5])])
             yield "variant", {"cls": name, "muts": muts}
+    for _ in range(chk.scale(300, 8000)):
+        yield "incoming-message", {"kind": r.choice(MSG_KINDS)[0], "seed": r.randrange(1 << 30), "group": r.random() < 0.35}
     import random
     n_out = len(outgoing_entities(random.Random(0)))
     for i in range(n_out):
@@ -221,11 +225,15 @@ def _texty(b):
 def nontrivial(stream, case):
     if stream == "outgoing":
         return ("outgoing", case["index"], case["seed"] % 16)
+    if stream == "incoming-message":
+        return ("incoming-message", case["kind"], case["group"], case["seed"])
     return (case["cls"], tuple((m[0], tuple(m[1]), m[2] if len(m) > 2 and not isinstance(m[2], list) else None,
                                 kind_of(m[3]) if m[0] == "set" else (m[3] if m[0] == "rep" else None)) for m in case["muts"]))
 
 
 def shrink(stream, case):
+    if stream == "incoming-message":
+        return
     if stream == "outgoing":
         return
     ms = case["muts"]
@@ -345,9 +353,104 @@ def run_outgoing(chk, case):
     return fails + codec_check(chk, "outgoing:" + name, what, s2)
 
 
+# (name, payload schema, mediatype attribute, type attribute): the message stanzas the protocol layers turn into entities
+MSG_KINDS = [("conversation", None, None, "text"), ("extendedtext", "extendedtext", None, "text"), ("url", "extendedtext", "url", "media"),
+             ("image", "image", "image", "media"), ("sticker", "sticker", "sticker", "media"), ("audio", "audio", "audio", "media"), ("ptt", "audio", "ptt", "media"),
+             ("video", "video", "video", "media"), ("gif", "video", "gif", "media"), ("location", "location", "location", "media"),
+             ("contact", "contact", "contact", "media"), ("document", "document", "document", "media")]
+
+
+def run_incoming_message(chk, case):
+    """an incoming <message> stanza (as it leaves the encryption layer) with a generated payload through the REAL messages / media protocol
+    layer; the entity the layer hands to the application is serialised again: envelope attributes and payload (parsed, presence-aware) must be kept"""
+    import random
+    from corr import c10
+    from lib import payloadspec as ps
+    from lib.probes import sandwich
+    from yowsup.structs import ProtocolTreeNode as N
+    from yowsup.layers.protocol_messages import YowMessagesProtocolLayer
+    from yowsup.layers.protocol_media import YowMediaProtocolLayer
+    from yowsup.layers.axolotl.protocolentities.message_encrypted import EncryptedMessageProtocolEntity  # noqa: F401 (import check)
+    from yowsup.layers.protocol_messages.proto.e2e_pb2 import Message
+    fails = []
+    r = random.Random(case["seed"])
+    req = c10.required_fields(chk)
+    kind, sub, mt, typ = [k for k in MSG_KINDS if k[0] == case["kind"]][0]
+    mspec = {p: ["none"] for p, _t in ps.flat_fields("message")}
+    if sub is None:
+        mspec["conversation"] = ["val", r.randrange(1 << 20)]
+    else:
+        field = [p for p, t in ps.flat_fields("message") if t == "sub:" + sub][0]
+        sp = c10.gen_spec(r, sub, 1, req)
+        if sub == "document":
+            sp["file_length"] = list(sp["dl.file_length"])      # C10's recorded finding (aliased field) is not this check's subject
+        mspec[field] = ["sub", sp]
+    what = "incoming %s message (seed %d%s)" % (kind, case["seed"], ", group" if case["group"] else "")
+    try:
+        data = ps.to_proto("message", c10.build_obj("message", mspec)).SerializeToString()
+    except Exception:
+        return fails            # composing is C10's subject
+    attrs = {"id": "%X" % r.randrange(1 << 60), "t": str(r.randint(1, 2 * 10 ** 9)), "type": typ}
+    if case["group"]:
+        attrs["from"] = "49%d-%d@g.us" % (r.randint(10 ** 6, 10 ** 10), r.randint(10 ** 9, 2 * 10 ** 9))
+        attrs["participant"] = "49%d@s.whatsapp.net" % r.randint(10 ** 6, 10 ** 10)
+    else:
+        attrs["from"] = "49%d@s.whatsapp.net" % r.randint(10 ** 6, 10 ** 10)
+    if r.random() < 0.8:
+        attrs["notify"] = r.choice(["Bob", "caf\xe9", "x" * 40, "a b", ""])
+    if r.random() < 0.5:
+        attrs["offline"] = r.choice(["0", "1"])         # a flag in the documented shape
+    st = N("message", attrs, [N("proto", {"mediatype": mt} if mt else {}, data=data)])
+    layer = (YowMediaProtocolLayer if typ == "media" else YowMessagesProtocolLayer)()
+    _stack, bottom, top = sandwich(layer)
+    chk.hit("incoming-message:" + kind)
+    try:
+        layer.receive(clone(st))
+    except Exception as e:
+        fails.append(oracle("C09:incoming-message:%s:raises" % kind, "%s: the protocol layer raises %s: %s" % (what, type(e).__name__, str(e)[:100])))
+        return fails
+    if len(top.received) != 1:
+        fails.append(oracle("C09:incoming-message:%s:entities" % kind, "%s: %d entities reached the application (and %d stanzas were sent down)" % (what, len(top.received), len(bottom.sent))))
+        return fails
+    try:
+        s2 = top.received[0].toProtocolTreeNode()
+    except Exception as e:
+        fails.append(oracle("C09:incoming-message:%s:serialise-raises" % kind, "%s: the entity cannot be serialised again: %s: %s" % (what, type(e).__name__, str(e)[:100])))
+        return fails
+    a1 = dict(st.attributes)
+    a2 = dict(s2.attributes)
+    if a1.get("notify") == "" and "notify" not in a2:
+        a1.pop("notify")
+    for k in sorted(set(a1) | set(a2)):
+        if k not in a1 and k == "offline" and a2[k] == "0":
+            continue            # the entity fills in the default of an absent flag: nothing lost or altered (same rule as for the fixtures)
+        if a1.get(k) != a2.get(k):
+            fails.append(oracle("C09:incoming-message:%s:attr:%s" % (kind, k), "%s: stanza -> entity -> stanza: attribute %s was %r, comes back as %r" % (what, k, a1.get(k), a2.get(k))))
+            return fails
+    p2 = s2.getChild("proto")
+    if p2 is None or p2.attributes != st.getChild("proto").attributes:
+        fails.append(oracle("C09:incoming-message:%s:proto-node" % kind, "%s: the payload node comes back as %s" % (what, p2)))
+        return fails
+    m1, m2 = Message(), Message()
+    m1.ParseFromString(data)
+    m2.ParseFromString(bytes(p2.getData()))
+    if m1 != m2:
+        diff = [f.name for f in Message.DESCRIPTOR.fields if m1.HasField(f.name) != m2.HasField(f.name) or getattr(m1, f.name) != getattr(m2, f.name)]
+        detail = ""
+        if diff:
+            x1, x2 = getattr(m1, diff[0]), getattr(m2, diff[0])
+            if hasattr(x1, "DESCRIPTOR"):
+                inner = [f.name for f in x1.DESCRIPTOR.fields if f.label != f.LABEL_REPEATED and (x1.HasField(f.name) != x2.HasField(f.name) or getattr(x1, f.name) != getattr(x2, f.name))]
+                detail = "; in %s: %s" % (diff[0], ", ".join("%s %r -> %r" % (n, getattr(x1, n) if x1.HasField(n) else None, getattr(x2, n) if x2.HasField(n) else None) for n in inner[:3]))
+        fails.append(oracle("C09:incoming-message:%s:payload" % kind, "%s: stanza -> entity -> stanza changes the payload (fields %s%s)" % (what, diff, detail[:300])))
+    return fails
+
+
 def run_case(chk, stream, case):
     if stream == "outgoing":
         return run_outgoing(chk, case)
+    if stream == "incoming-message":
+        return run_incoming_message(chk, case)
     fails = []
     name = case["cls"]
     cls, base, src = chk.fixtures[name]
